@@ -550,7 +550,7 @@ func TestC24(t *testing.T) {
 	// NOTE on sizes: under -race the JSON encoder of the repository (sonic)
 	// encodes every value twice at every nesting level, one SetBallot of a new
 	// key costs 0.2-0.9 s of CPU; histories are therefore few and short.
-	nh := r.N(10, 120)
+	nh := r.N(10, 90)
 	r.WithWatchdog(time.Duration(r.N(20, 120))*time.Minute, "C24 workload", func() {
 		t0 := time.Now()
 		vlib.Parallel(nh, workers, func(hi int) {
@@ -568,7 +568,7 @@ func TestC24(t *testing.T) {
 		r.Set("seconds_proposal_histories", int(time.Since(t0).Seconds()))
 		t0 = time.Now()
 		defer func() { r.Set("seconds_cleanup_cases", int(time.Since(t0).Seconds())) }()
-		nc := r.N(8, 100)
+		nc := r.N(8, 60)
 		vlib.Parallel(nc, workers, func(ci int) {
 			sl := <-slots
 			sl.disk.delay.Store(0)
